@@ -131,6 +131,20 @@ fn check(ctx: &Ctx, isa: &Isa, name: &str, prog: &[Stmt], bpl_list: &[usize]) {
             return;
         }
         let chunks: Vec<&Chunk> = cert.chunks.iter().filter(|c| !c.bytes.is_empty()).collect();
+        // A program that moves the program counter back and overwrites its own bytes: the image no longer holds
+        // what the earlier statement emitted, and the statement does not say what a listing shows then. No verdict.
+        let mut overlap = false;
+        for (i, a) in chunks.iter().enumerate() {
+            for b in chunks.iter().skip(i + 1) {
+                if a.seg == b.seg && a.addr < b.addr + b.bytes.len() && b.addr < a.addr + a.bytes.len() {
+                    overlap = true;
+                }
+            }
+        }
+        if overlap {
+            ctx.count("self_overwriting_programs_no_verdict");
+            return;
+        }
         ctx.nontrivial(fnv_str(&format!("{}{}", name, move_macro)));
         let cg = built.ctx.as_ref().unwrap();
         let tree = built.tree.as_ref().unwrap();
